@@ -65,12 +65,12 @@ def known_match(known, prop, f, hist, ev):
 
 
 def run_batch(out, label, dictname, histories, spec="Trace_File", nshards=None, known=None, driver="drive", keep=None,
-              extra_script=None):
+              extra_script=None, group_key=None, extra_specs=()):
     """Drive + validate one batch; classify failures for out.prop."""
     if not histories:
         return
     res = core.drive_and_validate(f"{out.prop}_{label}", dictname, histories, spec=spec, nshards=nshards, driver=driver,
-                                  keep=keep, extra_script=extra_script)
+                                  keep=keep, extra_script=extra_script, group_key=group_key, extra_specs=extra_specs)
     out.histories += len(histories)
     out.events += res["events"]
     for h in histories:
@@ -196,10 +196,13 @@ FILE_ASSUME = [
 def check_c01(tier, seed):
     out = Outcome("C01", tier, seed)
     run_batch(out, "edges", "A", edges_namespace(out, tier))
+    from . import dirchecks
+    run_batch(out, "shapes", "A", dirchecks.shape_histories(out, tier))
     for dn, hs in random_batches(seed, tier, 60, 600, 40, dicts=("A", "B")).items():
         run_batch(out, f"random{dn}", dn, hs)
     return finish(out, "model_checking",
                   "G1b: every transition of the MC_Tree state graph replayed on the real library (last two steps heavy + query battery); "
+                  "every transition of the MC_Dir sibling-tree graph (every reachable tree shape x every insertion / removal, 5 keys quick / 6 thorough); "
                   "G2: seeded random histories; distinct = distinct op scripts",
                   FILE_ASSUME)
 
@@ -234,8 +237,17 @@ def check_c10(tier, seed):
     run_batch(out, "edges", "A", edges_namespace(out, tier))
     for dn, hs in random_batches(seed + 3, tier, 60, 500, 40, dicts=("A", "E")).items():
         run_batch(out, f"random{dn}", dn, hs)
+    # refused seeks on a handle holding unflushed data: bytes and position must not change
+    from . import hgens
+    rng = random.Random(seed + 33)
+    hs = hgens.refused_seek_histories(tier)
+    for i in range(60 if tier == "quick" else 600):
+        h = hgens.random_handle_history(rng, f"hs{i}", 3 + i % 2, hgens.CONFIGS[i % len(hgens.CONFIGS)], 40, rng.choice([None, 100, 5000]))
+        h["hash"] = True
+        hs.append(h)
+    run_batch(out, "seeks", "A", hs, spec="Trace_Handle", driver="hdrive")
     return finish(out, "model_checking",
-                  "every call the model refuses (NotFound / AlreadyExists / InvalidInput) must leave the image hash unchanged and the "
+                  "refused seeks on handles with pending data (Trace_Handle: image hash and position unchanged); every call the model refuses (NotFound / AlreadyExists / InvalidInput) must leave the image hash unchanged and the "
                   "following events must validate against the unchanged model state; refusal x state coverage comes from the MC_Tree graph",
                   FILE_ASSUME)
 
@@ -303,6 +315,7 @@ def check_c09(tier, seed):
     out = Outcome("C09", tier, seed)
     for dn, hs in random_batches(seed + 7, tier, 30, 300, 40, dicts=("A", "B", "C", "D", "E"), deep=False).items():
         run_batch(out, f"random{dn}", dn, hs)
+    run_batch(out, "edges", "A", edges_namespace(out, tier))
     from . import dirchecks
     dirchecks.c09_edges(out, tier)
     return finish(out, "model_checking",
